@@ -1,7 +1,7 @@
 """C14 -- composition: DecompositionTool.get_decomposition (sort/pairing/left eigenvectors) and the lemmas that connect
 the contracts of C20 (wiring), C02 (one symmetric pattern) and C01 (SqRA formula) to stationarity."""
 import z3
-from pyvc.core import Num, Bool, Vec, Mat, Str, Obj, Tup, NONE, zint, conc
+from pyvc.core import Num, Bool, Vec, Mat, Str, Obj, Tup, NONE, zint, conc, Unsupported
 from pyvc.ops import vget, to_num, as_real, lift
 from pyvc.verify import Contract
 from pyvc.lib_sp import Sparse
@@ -35,7 +35,7 @@ class GetDecomposition(Contract):
             return
         call = ctx.__dict__.get("eigs_call")
         if call is None:
-            V.oblige("post:solver-was-called", False)
+            raise Unsupported("no eigs call recorded: the contract does not fit this code")
             return
         V.oblige("post:left-eigenvectors-requested", z3.BoolVal(getattr(call["matrix"], "transpose_of", None) is env["M"]))
         kw = call["kwargs"]
